@@ -259,8 +259,13 @@ func calculateBackoff(endpoint *domain.Endpoint, success bool) (time.Duration, i
 	// For first failure (BackoffMultiplier is 1), keep normal interval
 	// Only apply backoff on subsequent failures
 	if endpoint.BackoffMultiplier <= 1 {
-		// First failure - use normal interval but set multiplier to 2 for next time
-		return endpoint.CheckInterval, 2
+		// First failure - use normal interval but set multiplier to 2 for next time.
+		// The interval is subject to the same cap as every later backoff step.
+		firstInterval := endpoint.CheckInterval
+		if firstInterval > MaxBackoffSeconds {
+			firstInterval = MaxBackoffSeconds
+		}
+		return firstInterval, 2
 	}
 
 	// Calculate the multiplier for subsequent failures (exponential: 2, 4, 8...)
